@@ -424,7 +424,11 @@ def forgeries(r, ver, honest, request, nonce, earlier):
                    ("signed: MAXT = MIDP-1, RADI max", dict(mint=0, maxt=midp - 1, radi=2**32 - 1)),
                    ("signed: MINT = MIDP+3, RADI 5", dict(mint=midp + 3, radi=5)),
                    ("signed: window = [MIDP, MIDP] (authentic)", dict(mint=midp, maxt=midp)),
-                   ("signed: window = [MIDP, MIDP], RADI max (authentic)", dict(mint=midp, maxt=midp, radi=2**32 - 1))):
+                   ("signed: window = [MIDP, MIDP], RADI max (authentic)", dict(mint=midp, maxt=midp, radi=2**32 - 1)),
+                   # an EMPTY window (MINT > MAXT) contains no midpoint, whichever side of it the midpoint lies on
+                   ("signed: empty window, MIDP >= MINT > MAXT", dict(mint=midp - 5, maxt=midp - 10)),
+                   ("signed: empty window, MINT > MAXT >= MIDP", dict(mint=midp + 10, maxt=midp + 5)),
+                   ("signed: empty window, MINT = MAXT + 1 = MIDP", dict(mint=midp, maxt=midp - 1))):
         out.append((nm, lambda kw=kw: refserver.respond(ver, LT, OK1, batch2, 1, midp, **kw)))
     out.append(("signed reply for the co-request", lambda: refserver.respond(ver, LT, OK1, batch2, 0, midp)))
     def srep_dele_ctx():
@@ -543,6 +547,39 @@ def judge(ctx, pid, plan, results):
         ctx.sample({"ver": plan[0]["ver"], "label": results[0].get("label"), "observed": list(observed(results[0]))})
 
 
+def undecodable_keys(ctx):
+    """a -k value that is not a key (unpadded base64, an odd number of hex digits, stray characters) must not
+    be read as "no key was given": the client is pinned, so it may print a time only for a response signed
+    under that key — and for a key it cannot even decode, for none. The responder answers honestly under
+    ANOTHER key; a client that drops the pin accepts it."""
+    other_pk = ed25519.secret_to_public(LT2)
+    bad = [("unpadded base64", base64.b64encode(other_pk).decode().rstrip("=")),
+           ("hex with an odd number of digits", other_pk.hex()[:-1]),
+           ("hex with a stray character", other_pk.hex()[:-1] + "g"),
+           ("base64 with a trailing newline", base64.b64encode(other_pk).decode() + "\n"),
+           ("empty", "")]
+    jobs = [(ver, what, arg) for ver in ("Google", "RfcDraft13") for what, arg in bad]
+    def one(j):
+        ver, what, arg = j
+        unit = 10**6 if ver == "Google" else 1
+        def reply(req):
+            return refserver.respond(ver, LT, OK1, [(req, nonce_of(ver, req))], 0, 1700000000 * unit)
+        return run_client(ver, arg, reply, timeout=3) if arg else None
+    with ThreadPoolExecutor(max_workers=8) as ex:
+        outs = list(ex.map(one, jobs))
+    for (ver, what, arg), res in zip(jobs, outs):
+        if res is None:
+            continue
+        ctx.evaluations += 1
+        times = [l for l in res["stdout"].splitlines() if l and l[0].isdigit()]
+        rep = {"cmd": "client", "ver": ver, "key_arg": arg, "what": what, "rc": res["rc"], "stdout": res["stdout"][-300:], "stderr": res["stderr"][-400:]}
+        if times or res["rc"] == 0 and res["request"] is not None and not res["timed_out"]:
+            ctx.violation("property", "the client was given -k <%s> (not a decodable key) and printed a time / exited 0 for a response signed under a different key: the pin was dropped" % what, rep)
+        else:
+            ctx.traces_validated += 1
+            ctx.nontriv("badkey:%s:%s" % (ver, what))
+
+
 def run_c01(ctx):
     ctx.rule = ("the real client binary (hex / HEX / base64 key, both protocols; validly signed forgeries incl. a truncated ROOT) against a scripted responder returning, for the "
                 "request actually received, every single-component forgery of an honest response (SIG, PATH, INDX, "
@@ -591,6 +628,7 @@ def run_c01(ctx):
         plan.append({"ver": ver, "key": "hex", "pk": ed25519.secret_to_public(LT2), "maker": maker3})
     results = run_cases(ctx, "C01", plan)
     judge(ctx, "C01", plan, results)
+    undecodable_keys(ctx)
     multi_runs(ctx, "C01")
     check_nonces_fresh(ctx)
     proof_verdict(ctx)
